@@ -589,6 +589,27 @@ pub fn families(quick: bool) -> Vec<Family> {
         }
         f.push(Family { name: "3 clients, merged scripts, P=2".into(), p: 2, heartbeat: false, clients: 3, scripts: three, d: 1, all_pacings_at_d0: false });
     }
+    // a client vanishes without a Close and without heartbeat: it stays in the table as a dead stream whose
+    // writes fail; broadcasts and unicasts must still reach the live clients, whatever the table order
+    let mut dead = vec![];
+    for (gone, live) in [(0usize, 1usize), (1, 0)] {
+        let a = vec![Step::Connect(gone), Step::Abrupt(gone)];
+        for b in [vec![Step::Connect(live), Step::ExtBc, Step::TextBc(live)], vec![Step::Connect(live), Step::TextBc(live), Step::ExtBc, Step::ExtUni(live)]] {
+            dead.extend(merges(&a, &b));
+        }
+    }
+    for p in [1usize, 2] {
+        f.push(Family { name: format!("2 clients, one vanishes (no heartbeat), broadcasts, P={}", p), p, heartbeat: false, clients: 2, scripts: dead.clone(), d: if quick { 1 } else { 2 }, all_pacings_at_d0: false });
+    }
+    let mut dead3 = vec![];
+    for gone in 0..3usize {
+        let mut steps: Vec<Step> = (0..3).map(Step::Connect).collect();
+        steps.push(Step::Abrupt(gone));
+        steps.push(Step::ExtBc);
+        steps.push(Step::TextBc((gone + 1) % 3));
+        dead3.push(steps);
+    }
+    f.push(Family { name: "3 clients, one vanishes (no heartbeat), broadcasts, P=1".into(), p: 1, heartbeat: false, clients: 3, scripts: dead3, d: 1, all_pacings_at_d0: false });
     // heartbeat on: silent clients time out, vanished clients are detected, closes still give one disconnect
     let hb: Vec<Vec<Step>> = vec![
         vec![Step::Connect(0), Step::Text(0)],
